@@ -105,7 +105,7 @@ Qed.
 Lemma disjb_right s lc rc : inclb s rc = true -> disjb lc rc = true -> disjb s lc = true.
 Proof. intros Hi Hd. apply (disjb_incl s rc lc Hi). apply disjb_sym. exact Hd. Qed.
 (** whether a join has a meaning depends on its type alone *)
-Lemma join_sem_defined ty on1 on2 lc rc L R x : join_sem ty on1 lc rc L R = Some x -> exists y, join_sem ty on2 lc rc L R = Some y.
+Lemma join_sem_defined ty on1 on2 lc rc lc' rc' L R L' R' x : join_sem ty on1 lc rc L R = Some x -> exists y, join_sem ty on2 lc' rc' L' R' = Some y.
 Proof.
   unfold join_sem. repeat match goal with |- (if ?c then _ else _) = _ -> _ => destruct c end;
     intros H; try discriminate; eexists; reflexivity.
